@@ -177,6 +177,7 @@ type verifSink struct{ n int }
 func (s *verifSink) Write(p []byte) (int, error) { s.n += len(p); return len(p), nil }
 
 var verifHeaderStream *verifInStream // what an in-memory header IPC blob ('H'...) decodes to
+var verifFetchedStream *verifInStream // what an in-memory fetched external payload ('F'...) decodes to
 
 func verifIpcNewReader(r io.Reader, opts ...ipc.Option) (*ipc.Reader, error) {
 	verifLastRdSrc = r
@@ -184,10 +185,17 @@ func verifIpcNewReader(r io.Reader, opts ...ipc.Option) (*ipc.Reader, error) {
 	if br, ok := r.(*bytes.Reader); ok && br.Len() > 0 {
 		b, _ := br.ReadByte()
 		_ = br.UnreadByte()
-		if b == 'H' {
+		if b == 'H' || b == 'F' {
 			st := &verifInStream{failAt: -1, opened: true}
-			if verifHeaderStream != nil {
-				cp := *verifHeaderStream
+			src := verifHeaderStream
+			if b == 'F' {
+				src = verifFetchedStream
+			}
+			if src != nil {
+				if src.bad {
+					return nil, errors.New("arrow/ipc: could not read message schema")
+				}
+				cp := *src
 				st = &cp
 				st.opened = true
 			}
